@@ -399,6 +399,15 @@ impl<'m> MCTPSMBusContext<'m> {
                         ));
                     }
 
+                    if packet[2] > CompletionCode::ErrorUnsupportedCmd as u8 {
+                        // A reserved or command specific completion code,
+                        // there is no CompletionCode to report it with
+                        return Err((
+                            MessageType::MCtpControl,
+                            DecodeError::ControlMessage(ControlMessageError::Unknown),
+                        ));
+                    }
+
                     if packet[2] != CompletionCode::Success as u8 {
                         return Err((
                             MessageType::MCtpControl,
